@@ -186,7 +186,8 @@ Inductive value :=
 | VSet (l : list value)                       (* in the iteration order of the running interpreter *)
 | VDict (l : list (string * value))
 | VObj (cmod cname : string) (fields : list (string * value))
-| VOther (tys : list string) (h : Z).         (* anything else: gzip(dill) fallback *)
+| VOther (tys : list string) (h : Z)          (* anything else: gzip(dill) fallback *)
+| VTbWriter (log_dir : string) (max_queue flush_secs : Z) (suffix : string).   (* tensorboard SummaryWriter: metadata only *)
 
 (* ------------------------------------------------------------------ Python types of values *)
 Definition np_scalar_types (dt : string) : list string :=
@@ -220,6 +221,7 @@ Definition types_of (v : value) : list string :=
    | VDict _ => ["builtins.dict"]
    | VObj m c _ => [cls_name m c; "quantem.core.io.serialize.AutoSerialize"]
    | VOther tys _ => tys
+   | VTbWriter _ _ _ _ => ["torch.utils.tensorboard.writer.SummaryWriter"]
    end) ++ ["builtins.object"].
 
 Definition exact_ty (v : value) : string := hd "" (types_of v).
@@ -263,9 +265,10 @@ Definition inst_any (v : value) (st : list string) : bool := existsb (fun t => m
 Definition g_tensor v := match v with VBlob BTensor _ _ _ => true | _ => false end.
 Definition g_optimizer v := match v with VBlob BOptimizer _ _ _ => true | _ => false end.
 Definition g_scheduler v := match v with VBlob BScheduler _ _ _ => true | _ => false end.   (* step & get_last_lr *)
-Definition g_torch_logger (v : value) := false.        (* add_scalar & add_image: SummaryWriter, not modelled *)
+Definition g_torch_logger v := match v with VTbWriter _ _ _ _ => true | _ => false end.  (* add_scalar & add_image *)
 Definition g_py_logger v := match v with VLogger _ _ _ => true | _ => false end.            (* log & info *)
-Definition g_module v := match v with VBlob _ _ _ _ => true | _ => false end.   (* nn.Module or "torch" in __module__ *)
+Definition g_module v :=                                 (* nn.Module or "torch" in __module__ *)
+  match v with VBlob _ _ _ _ | VTbWriter _ _ _ _ => true | _ => false end.
 Definition g_ndarray v := match v with VArr _ => true | _ => false end.
 Definition g_pyscalar v :=
   match v with
@@ -299,7 +302,7 @@ Definition intended (v : value) : nat :=
   | VNone | VBool _ | VInt _ | VFloat _ | VStr _ => 7
   | VNpScalar dt _ => if String.eqb dt "float64" then 7 else 8
   | VPath _ => 9 | VObj _ _ _ => 10 | VList _ | VTuple _ | VDict _ => 11 | VSet _ => 12
-  | VRng _ _ => 13 | VOther _ _ => 15
+  | VRng _ _ => 13 | VOther _ _ => 15 | VTbWriter _ _ _ _ => 3
   end.
 
 (* ------------------------------------------------------------------ numeric sequences *)
@@ -456,7 +459,14 @@ Section Encode.
       match v with VBlob k tys meta h => with_group name (encode_blob BOptimizer tys meta h) g | _ => g end
     else if g_scheduler v then
       match v with VBlob k tys meta h => with_group name (encode_blob BScheduler tys meta h) g | _ => g end
-    else if g_torch_logger v then g
+    else if g_torch_logger v then
+      match v with
+      | VTbWriter d q f sfx =>
+        (* value.comment does not exist on a SummaryWriter: no "comment" attribute is written *)
+        with_group name (set_attrs [("_torch_logger", JBool true); ("class_name", JStr "SummaryWriter"); ("log_dir", JStr d);
+                                    ("max_queue", JInt q); ("flush_secs", JInt f); ("filename_suffix", JStr sfx)]) g
+      | _ => g
+      end
     else if g_py_logger v then
       match v with
       | VLogger c n lv =>
@@ -611,6 +621,14 @@ Definition decode_logger (sub : node) : res :=
   then RVal (VLogger c (jstr_or (lookup "logger_name" a) "quantem") (jint_or (lookup "logger_level" a) 20))
   else RSkip.
 
+(* SummaryWriter(log_dir, comment, max_queue, flush_secs, filename_suffix) re-created from the metadata *)
+Definition decode_tb (sub : node) : res :=
+  let a := n_attrs sub in
+  if String.eqb (jstr_or (lookup "class_name" a) "SummaryWriter") "SummaryWriter"
+  then RVal (VTbWriter (jstr_or (lookup "log_dir" a) "") (jint_or (lookup "max_queue" a) 10)
+                       (jint_or (lookup "flush_secs" a) 120) (jstr_or (lookup "filename_suffix" a) ""))
+  else RSkip.
+
 Definition known_bitgens : list string := ["PCG64"; "MT19937"; "Philox"; "SFC64"].
 Definition canon_bitgen (bg : string) : string := if mem bg known_bitgens then bg else "PCG64".
 Definition decode_rng (sub : node) : res :=
@@ -637,7 +655,7 @@ Definition obj_sub (st : list string) (dobj dcont : node -> res) (sub : node) : 
   if truthy (lookup "_torch_tensor" a) then type_checked st (decode_blob BTensor sub)
   else if truthy (lookup "_torch_optimizer" a) then type_checked st (decode_blob BOptimizer sub)
   else if truthy (lookup "_torch_scheduler" a) then type_checked st (decode_blob BScheduler sub)
-  else if truthy (lookup "_torch_logger" a) then RErr                  (* SummaryWriter: not modelled *)
+  else if truthy (lookup "_torch_logger" a) then type_checked st (decode_tb sub)
   else if truthy (lookup "_python_logger" a) then type_checked st (decode_logger sub)
   else if truthy (lookup "_torch_whole_module" a) then type_checked st (decode_blob BModule sub)
   else if has_key "_autoserialize" a then
@@ -658,7 +676,7 @@ Definition cont_sub (dobj dcont : node -> res) (sub : node) : res :=
   else if has_key "_autoserialize" a then dobj sub
   else if truthy (lookup "_torch_whole_module" a) then decode_blob BModule sub
   else if truthy (lookup "_torch_tensor" a) then decode_blob BTensor sub
-  else if truthy (lookup "_torch_logger" a) then RErr                  (* SummaryWriter: not modelled *)
+  else if truthy (lookup "_torch_logger" a) then decode_tb sub
   else if truthy (lookup "_python_logger" a) then decode_logger sub
   else if truthy (lookup "_numpy_rng" a) then decode_rng sub         (* repaired: _restore_numpy_rng *)
   else RErr.
@@ -947,6 +965,7 @@ Fixpoint wf_value (in_cont : bool) (v : value) : bool :=
   | VObj _ _ l => nodupb (map fst l) && forallb (fun kv => key_ok (fst kv)) l
                   && forallb (fun kv => wf_value false (snd kv)) l
   | VOther _ _ => true
+  | VTbWriter _ _ _ _ => true
   end.
 
 Definition wf_obj (v : value) : bool :=
@@ -1082,6 +1101,7 @@ Fixpoint value_eqb (a b : value) {struct a} : bool :=
   | VDict x, VDict y => smap_eqb value_eqb x y
   | VObj m1 c1 x, VObj m2 c2 y => String.eqb m1 m2 && String.eqb c1 c2 && smap_eqb value_eqb x y
   | VOther t1 h1, VOther t2 h2 => list_eqb String.eqb t1 t2 && (h1 =? h2)%Z
+  | VTbWriter d1 q1 f1 s1, VTbWriter d2 q2 f2 s2 => String.eqb d1 d2 && (q1 =? q2)%Z && (f1 =? f2)%Z && String.eqb s1 s2
   | _, _ => false
   end.
 
@@ -1104,7 +1124,7 @@ Definition ex_fields_common : list (string * value) :=
    ("o", VBlob BOptimizer ["torch.optim.adam.Adam"; "torch.optim.optimizer.Optimizer"] [("class_name", JStr "Adam")] 12);
    ("sch", VBlob BScheduler ["torch.optim.lr_scheduler.StepLR"] [("class_name", JStr "StepLR")] 13);
    ("m", VBlob BModule ["torch.nn.modules.linear.Linear"; "torch.nn.modules.module.Module"] [] 14);
-   ("lg", VLogger "Logger" "c01" 20);
+   ("lg", VLogger "Logger" "c01" 20); ("tb", VTbWriter "runs/x" 10 120 "");
    ("r", VRng "PCG64" (JOpaque 1));
    ("l", VList [VInt 1; VStr "x"; VTuple [VPath "q"; VDict [("k", VSet [VInt 1; VFloat 4609434218613702656])]]]);
    ("nl", VList [VBool true; VInt 2; VNpScalar "float32" (NFloat 4602678819172646912)]);
